@@ -2,7 +2,7 @@ from __future__ import annotations
 
 import logging
 from collections import defaultdict
-from typing import TYPE_CHECKING
+from pathlib import Path
 
 import mypy.build as mypy_build
 import mypy.main as mypy_main
@@ -16,9 +16,6 @@ from ._api import API
 from ._ast_visitor import MyPyAstVisitor
 from ._ast_walker import ASTWalker
 from ._package_metadata import distribution, distribution_version
-
-if TYPE_CHECKING:
-    from pathlib import Path
 
 
 def get_api(
@@ -133,8 +130,10 @@ def _get_mypy_asts(
         if ast is None:  # pragma: no cover
             raise ValueError
 
-        if ast.path.endswith("__init__.py"):
-            ast_package_path = ast.path.split("__init__.py")[0][:-1]
+        # Only files which are named "__init__.py" are packages, not e.g. "test__init__.py"
+        ast_path = Path(ast.path)
+        if ast_path.name == "__init__.py":
+            ast_package_path = str(ast_path.parent)
             if ast_package_path in package_paths:
                 package_ast.append(ast)
         elif ast.path in files:
